@@ -71,6 +71,27 @@ Section Final.
     lia.
   Qed.
 
+  (* ScalarMult_is_smul concludes [k mod n]P, which is what the code computes (it reduces the scalar mod n).  That this
+     is the group result [k]P needs [n]P = infinity, which SM2Facts gives for the multiples of G only (for ALL curve
+     points it is the cofactor-1 fact, like small_multiples_finite).  For P = [j]G both side conditions follow: *)
+  Theorem ScalarMult_on_multiples_of_G : forall j x y (k : list N),
+    0 < j < sm2_n -> sm2_mul j sm2_G = Some (x, y) ->
+    ScalarMult_model x y k = Ok (encode_point (sm2_mul (os2ip k) (Some (x, y)))) /\
+    sm2_mul (os2ip k) (Some (x, y)) = sm2_mul (os2ip k * j) sm2_G.
+  Proof.
+    intros j x y k Hj HP.
+    assert (HG : sm2_valid sm2_G = true) by (vm_compute; reflexivity).
+    assert (Hv : sm2_valid (Some (x, y)) = true) by (rewrite <- HP; apply (sm2_mul_ok HF); exact HG).
+    assert (Hs : small_multiples_finite (Some (x, y))) by (rewrite <- HP; apply small_multiples_of_kG; exact Hj).
+    assert (Hred : forall m, sm2_mul m (Some (x, y)) = sm2_mul (m * j) sm2_G).
+    { intros m. rewrite <- HP. apply (sm2_mul_mul HF). exact HG. }
+    assert (E : sm2_mul (os2ip k mod sm2_n) (Some (x, y)) = sm2_mul (os2ip k) (Some (x, y))).
+    { rewrite !Hred. rewrite <- (sm2_mul_mod_n HF (os2ip k mod sm2_n * j)), <- (sm2_mul_mod_n HF (os2ip k * j)).
+      rewrite Z.mul_mod_idemp_l by discriminate. reflexivity. }
+    split; [|apply Hred].
+    rewrite (ScalarMult_is_smul x y k Hv Hs), E. reflexivity.
+  Qed.
+
   (* ---------- ScalarBaseMult ---------------------------------------------------------------------------- *)
   Lemma gen_table : forall h idx, (h = 0 \/ h = 1) -> 1 <= idx <= 15 ->
     let '(px, py) := sm2P256SelectAffinePoint gen_curve gen_RInverse
